@@ -476,6 +476,7 @@ class Concatenator(Group):  # pylint: disable=too-many-public-methods
                 continue
 
             self.remove_entity(child)
+            self._children.remove(child)
 
     def remove_entity(self, entity: Concatenated | ConcatenatedPropertyGroup):
         """Remove a concatenated entity."""
